@@ -359,7 +359,8 @@ def strat_disabled():
     cell = st.one_of(st.integers(-5, 5), st.text("ab", max_size=2), st.none(), st.floats(-2, 2, allow_nan=False))
     return st.fixed_dictionaries({
         "entry": st.sampled_from(["pd.DataFrameSchema", "pd.SeriesSchema", "pd.Model", "pl.DataFrameSchema.df",
-                                  "pl.DataFrameSchema.lf", "pl.Model", "pd.check_types"]),
+                                  "pl.DataFrameSchema.lf", "pl.Model", "pd.check_types", "pd.Column", "pd.Index",
+                                  "pl.Column.df", "pl.Column.lf", "pl.Model.lf"]),
         "cells": st.lists(cell, min_size=0, max_size=4),
         "lazy": st.booleans(),
         "nonframe": st.booleans(),
@@ -380,6 +381,9 @@ def eval_disabled(case):
     cells = case["cells"]
     ev.nontrivial = True
     entry = case["entry"]
+    if case["nonframe"] and entry.split(".")[1] in ("Column", "Index"):
+        ev.skipped = "non-dataframe argument to a schema component (not one of the documented entry points for it)"
+        return ev
     if case["nonframe"]:
         obj = cells  # a plain list: with validation disabled validate must still hand it back
         ev.labels.append("nonframe")
@@ -410,13 +414,29 @@ def eval_disabled(case):
         if case["nonframe"]:
             ev.skipped = "check_types-nonframe"
             return ev
+    elif entry == "pd.Column":
+        fn = lambda: pa.Column(int, pa.Check.gt(100), name="a").validate(obj, lazy=case["lazy"])
+    elif entry == "pd.Index":
+        fn = lambda: pa.Index(str, pa.Check.str_length(9), name="nope").validate(obj, lazy=case["lazy"])
+    elif entry.startswith("pl.Column"):
+        fn = lambda: pap.Column(pl.Int64, pa.Check.gt(100), name="a").validate(obj, lazy=case["lazy"])
     elif entry.startswith("pl.DataFrameSchema"):
         fn = lambda: pap.DataFrameSchema({"a": pap.Column(pl.Int64, pa.Check.gt(100)), "b": pap.Column(pl.Int64)},
                                          strict=True).validate(obj, lazy=case["lazy"])
     else:
         fn = lambda: PlM.validate(obj, lazy=case["lazy"])
 
+    def attached(o):
+        """what the object itself carries (the pandas accessor's schema): 'untouched' includes this"""
+        try:
+            acc = getattr(o, "pandera", None)
+            sch = getattr(acc, "schema", None)
+            return None if sch is None else type(sch).__name__
+        except Exception:
+            return "<unreadable>"
+
     before = state()
+    attached_before = attached(obj)
     try:
         if case["how"] == "context":
             with c.config_context(validation_enabled=False):
@@ -431,6 +451,8 @@ def eval_disabled(case):
     else:
         if r is not obj:
             ev.add("disabled-validate-not-identity", {"entry": entry, "returned": type(r).__name__})
+        if attached(obj) != attached_before:
+            ev.add("disabled-validate-touched-argument", {"entry": entry, "before": attached_before, "after": attached(obj)})
     if state() != before:
         ev.add("state-changed-after-disabled-validate", {"before": before, "after": state()})
     c.reset_config_context()
